@@ -47,6 +47,19 @@ def tasks(tier):
             out.append({"family": "protocol-awaitable",
                         "cfg": dict(base, bs_async=True, sleeper_async=True, suspend=True),
                         "entry": e, "bound": 0})
+    # awaitables that are not coroutines (objects with __await__)
+    for hd, e in itertools.product([None, "call", "policy"], ASYNC):
+        cfg = dict(M=3, alphabet=["x:T", "ok", "r:T"], handler=hd, before_sleep="call",
+                   sleeper="call" if hd != "policy" else "policy", handler_free=True,
+                   max_unknown=None, bs_async=True, sleeper_async=True, awaitable="object",
+                   suspend=True)
+        out.append({"family": "protocol-awaitable-object", "cfg": cfg, "entry": e, "bound": 0})
+    # the handler itself takes time and a deadline is configured: DEFER / ABORT keep their meaning
+    for e in SYNC[:2] + ASYNC[:2]:
+        cfg = dict(M=3, alphabet=["x:T", "ok", "r:T"], handler="call", handler_free=True,
+                   handler_durs=[0, 2, 5], deadline=4, durs=[0, 1], max_unknown=None,
+                   strat_menu=[1, 0], before_sleep="call")
+        out.append({"family": "protocol-slow-handler", "cfg": cfg, "entry": e, "bound": 2})
     # invalid handler return value must not be taken for a decision
     cfg = dict(M=3, alphabet=["x:T"], handler="call", handler_menu=["BAD"], max_unknown=None)
     for e in ["Retry.call", "AsyncRetry.call"]:
@@ -123,7 +136,7 @@ def monitor(w, cfg):
                     v.append(("c16.sleeper-override", f"sleeper {s[1]!r} used, effective is {es!r}"))
                 if s[2] != delay:
                     v.append(("c16.sleeper-arg", f"sleeper got {s[2]}, delay is {delay}"))
-                if a.last and a.i < M:
+                if a.last and a.i < M and cfg["deadline"] is None:
                     v.append(("c16.no-next-attempt", f"SLEEP after attempt {a.i} was not followed "
                                                      f"by another attempt"))
                 continue
